@@ -179,6 +179,10 @@ def build(variant="plain", repo=None, verbose=False):
     out = os.path.join(BUILD_ROOT, "%s-%s" % (variant, key))
     stamp = os.path.join(out, "BUILD_OK")
     if os.path.exists(stamp):
+        try:
+            os.utime(stamp, None)  # LRU mark: builds in use are never evicted
+        except OSError:
+            pass
         return out
     os.makedirs(BUILD_ROOT, exist_ok=True)
     lockf = open(os.path.join(BUILD_ROOT, ".lock-%s" % variant), "w")
@@ -186,9 +190,20 @@ def build(variant="plain", repo=None, verbose=False):
     try:
         if os.path.exists(stamp):
             return out
-        # drop stale builds of this variant (disk is limited)
+        # evict stale builds of this variant (disk is limited), but never one that another
+        # check (e.g. a concurrent run against a scratch tree) used in the last 45 minutes
+        import time as _time
+
+        olds = []
         for d in glob.glob(os.path.join(BUILD_ROOT, variant + "-*")):
-            if d != out:
+            if d == out:
+                continue
+            st = os.path.join(d, "BUILD_OK")
+            age = _time.time() - (os.path.getmtime(st) if os.path.exists(st) else os.path.getmtime(d))
+            olds.append((age, d))
+        olds.sort()
+        for rank, (age, d) in enumerate(olds):
+            if age > 2700 or (rank >= 10 and age > 600):
                 shutil.rmtree(d, ignore_errors=True)
         if os.path.exists(out):
             shutil.rmtree(out)
